@@ -102,7 +102,7 @@ class Describer:
                 return en
             t = env.get(e.id, ANY)
             cn = self.clsname(t) if t is not ANY else None
-            if cn and not any(s[0] == 'assign' for s in binding_sites(fn, e.id)):
+            if cn and not any(s[0] in ('assign', 'unpack') for s in binding_sites(fn, e.id)):
                 return cn
             v = nearest_assignment(fn, e.id, at)
             if v is None:
@@ -152,6 +152,9 @@ class Describer:
                 it, _ = iter_source(self.func, e.id, row) if row is not None else (None, None)
                 if it is not None and not (isinstance(it, ast.Name) and it.id == e.id):
                     return f'each({self.describe(it, it, depth + 1, None)})'
+            dk2 = self._dict_flow(e.id, row, depth) if row is None and getattr(e, '_parent', None) is not None else None
+            if dk2 is not None:
+                return dk2
             if e.id in self.func.params:
                 return f'param:{e.id}'
             return f'var:{e.id}'
@@ -164,6 +167,10 @@ class Describer:
             ast.copy_location(comp, e)
             comp._parent = getattr(e, '_parent', None)
             return self.describe(comp, at, depth, row)
+        if isinstance(e, ast.Call) and isinstance(e.func, ast.Attribute) and e.func.attr in ('items', 'keys') and not e.args \
+                and not e.keywords and depth < 12:
+            # iterating the items / keys of a mapping visits the same entries as iterating the mapping
+            return self.describe(e.func.value, at, depth + 1, row)
         if isinstance(e, ast.Call):
             f = e.func
             if isinstance(f, ast.Attribute) and f.attr == 'get' and e.args and isinstance(e.args[0], ast.Constant):
@@ -214,8 +221,18 @@ class Describer:
             op = ' and ' if isinstance(e.op, ast.And) else ' or '
             return '(' + op.join(self.describe(v, at, depth + 1, row) for v in e.values) + ')'
         if isinstance(e, ast.Subscript) and depth < 6:
+            if isinstance(e.value, ast.Name):
+                dv = nearest_assignment(fn, e.value.id, at)
+                if isinstance(dv, ast.DictComp):
+                    # D[k] with k ranging over the keys of D = {K: V for ...}: the value V of that key
+                    kd = self.describe(dv.key, dv.key, depth + 1, None)
+                    if self.describe(e.slice, at, depth + 1, row) == kd:
+                        return self.describe(dv.value, dv.value, depth + 1, None)
             return f'{self.describe(e.value, at, depth + 1, row)}[{self.describe(e.slice, at, depth + 1, row)}]'
         if isinstance(e, ast.Call) and isinstance(e.func, ast.Attribute) and e.func.attr in ('items', 'values', 'keys') and not e.args and depth < 6:
+            if e.func.attr in ('items', 'keys'):
+                # iterating the items / keys of a mapping visits the same entries as iterating the mapping
+                return self.describe(e.func.value, at, depth + 1, row)
             return f'{self.describe(e.func.value, at, depth + 1, row)}.{e.func.attr}()'
         return f'expr:{norm(e)}'
 
@@ -254,7 +271,10 @@ class Describer:
     def _dict_flow(self, name, row, depth):
         """`for k in D` / `for x in D[k]` where D is a dict comprehension built in the same function."""
         bg = _binding_gen(self.func, name, row)
-        if bg is None or bg[2] is not None:
+        if bg is None:
+            return None
+        is_items = isinstance(bg[1], ast.Call) and isinstance(bg[1].func, ast.Attribute) and bg[1].func.attr == 'items' and not bg[1].args
+        if bg[2] is not None and not is_items:
             return None
         it = bg[1]
         sub = False
